@@ -1517,6 +1517,13 @@ func FunExpr(query *Query, current Map, expr *sqlparser.FuncExpr, opts ...ExprOp
 				return nil, e
 			}
 			go func() {
+				defer func() {
+					if r := recover(); r != nil {
+						if query.options.errors != nil {
+							query.options.errors(recovered(r))
+						}
+					}
+				}()
 				_, err := function(query, current, nil, slice)
 				if err != nil {
 					if query.options.errors != nil {
@@ -1537,13 +1544,20 @@ func FunExpr(query *Query, current Map, expr *sqlparser.FuncExpr, opts ...ExprOp
 			}
 			query.wg.Add(1)
 			go func() {
+				defer query.wg.Done()
+				defer func() {
+					if r := recover(); r != nil {
+						if query.options.errors != nil {
+							query.options.errors(recovered(r))
+						}
+					}
+				}()
 				_, err := function(query, current, nil, slice)
 				if err != nil {
 					if query.options.errors != nil {
 						query.options.errors(err)
 					}
 				}
-				query.wg.Done()
 			}()
 			return Ommit(true), nil
 		}
